@@ -197,6 +197,7 @@ func runC11(p *load.Program, r *oblig.Report) {
 	c.ruleR3()
 	c.ruleR4()
 	c.ruleR5()
+	c.ruleR6()
 }
 
 // ruleR1: broker errors raised mid-frame are followed by a drain.
@@ -649,4 +650,38 @@ func (c *c11ctx) ruleR5() {
 		}
 	}
 	r.Check(okAlone, rule, "kafka.(*Conn).waitResponse reports io.ErrNoProgress iff it is the only operation in flight", p.Pos(wait.Pos()), "if c.concurrency() == 1 { err = io.ErrNoProgress }", "not recognised")
+}
+
+// ruleR6: Batch.close leaves the stream at a frame boundary whenever it keeps the connection.
+func (c *c11ctx) ruleR6() {
+	const rule = "C11.R6 Batch.close drains the fetch response or closes the connection"
+	p, r := c.p, c.r
+	bc := p.Func("", "(*Batch).close")
+	if bc == nil {
+		r.Lost(rule, "kafka.(*Batch).close")
+		return
+	}
+	isMsgsOrConn := func(v ssa.Value) bool {
+		d := argDesc(v)
+		return strings.HasSuffix(d, ".msgs") || strings.HasSuffix(d, ".conn")
+	}
+	// only paths on which there is a message set reader and a connection
+	edge := an.NilEdge(isMsgsOrConn, true)
+	pass := func(ins ssa.Instruction) bool {
+		call, ok := ins.(*ssa.Call)
+		if !ok {
+			return false
+		}
+		if isConnClose(&call.Call) {
+			return true
+		}
+		sc := call.Call.StaticCallee()
+		return sc != nil && sc.Name() == "discard" && sc.Signature.Recv() != nil && an.NamedIs(sc.Signature.Recv().Type(), load.ModPath, "messageSetReader")
+	}
+	ok, bad := an.MustPass(bc, an.EntryPoint(bc), pass, edge)
+	where := ""
+	if bad != nil {
+		where = "a path with msgs != nil and conn != nil returns at " + p.Pos(bad.Pos()) + " without discarding the remainder or closing the connection"
+	}
+	r.Check(ok, rule, "kafka.(*Batch).close", p.Pos(bc.Pos()), "msgs.discard() or conn.Close() on every path that had a message set and a connection", where)
 }
